@@ -100,8 +100,8 @@ type rawIn struct {
 }
 
 var (
-	noCertJSON      = json.RawMessage(`{"cn":"-","issuer":"-","serial":"-","key":"-","window":"-","usage":"-","chainLen":0,"der":"none","holds":false}`)
-	emptyRegJSON    = json.RawMessage(`{"X/s1":{"state":"none","key":"-","window":"-","usage":"-"},"X/s2":{"state":"none","key":"-","window":"-","usage":"-"},"Y/s1":{"state":"none","key":"-","window":"-","usage":"-"}}`)
+	noCertJSON      = json.RawMessage(`{"cn":"-","first":"-","issuer":"-","serial":"-","key":"-","window":"-","usage":"-","chainLen":0,"der":"none","holds":false}`)
+	emptyRegJSON    = json.RawMessage(`{"X/s1":{"state":"none","key":"-","window":"-","usage":"-","first":"-"},"X/s2":{"state":"none","key":"-","window":"-","usage":"-","first":"-"},"Y/s1":{"state":"none","key":"-","window":"-","usage":"-","first":"-"}}`)
 	defaultPathJSON = json.RawMessage(`{"route":"lstatus","dseq":"own","gseq":"own","oseq":"own","extra":"none"}`)
 )
 
@@ -175,7 +175,7 @@ func newGateway(ch *chain, n int) (*gateway, error) {
 	if err != nil {
 		return nil, err
 	}
-	der, err := w.makeCert(g.provider.String(), "", big.NewInt(int64(77+n)), key, "ok", "both", []net.IP{net.ParseIP("127.0.0.1")})
+	der, err := w.makeCert(g.provider.String(), "", "", big.NewInt(int64(77+n)), key, "ok", "both", []net.IP{net.ParseIP("127.0.0.1")})
 	if err != nil {
 		return nil, err
 	}
